@@ -21,14 +21,14 @@ INVS = ["Normalised", "Effectiveness", "Composition", "Exclusion", "Compatible"]
 def cf_mc(wd):
     def go():
         cfg = wd / "CFMachine.cfg"
-        cfg.write_text('SPECIFICATION Spec\nCONSTANTS\n  Family = "A3"\n  RndN = 5\n  RndK = 4\n  Seeds = {1, 2}\n'
-                       + "".join(f"INVARIANT {i}\n" for i in INVS) + "CHECK_DEADLOCK FALSE\n")
+        cfg.write_text('SPECIFICATION Spec\nCONSTANTS\n  Family = "A3"\n  RndN = 5\n  RndK = 4\n  Seeds = {1, 2}\n  Grows = TRUE\n'
+                       + "".join(f"INVARIANT {i}\n" for i in INVS) + "PROPERTY GrowLocal\nCHECK_DEADLOCK FALSE\n")
         r = tlc("CFMachine.tla", str(cfg), workers=NCPU, meta=wd / "cfmc", xmx="6g")
         v = tlc_violation(r)
         if v:
             raise MachineryError(f"CFMachine: {v} violated\n" + r["out"][-2000:])
         tlc_ok(r, "CFMachine")
-        return {"generated": r["generated"], "distinct": r["distinct"], "invariants": INVS, "family": "A3"}
+        return {"generated": r["generated"], "distinct": r["distinct"], "invariants": INVS, "action_properties": ["GrowLocal"], "family": "A3"}
     return cached("cf-mc-A3", go, module="CFMachine")
 
 
@@ -69,6 +69,7 @@ def run(tier: str) -> int:
     groups = cf.run_y0(wd, "cg", items, "c18")
     vs, st, by_id = cf.judge(wd, groups, seeds=(1, 2) if tier == "quick" else (1, 2, 3))
     cf.report(out, vs, by_id)
+    hist = cf.report_history(out, groups)
     cov = cf.coverage(vs, by_id, st, g,
                       "one record = make_counterfactual_graph(G, event) for a TLC-generated conjunction of 1-3 atoms 'V under "
                       "<= 2 signed subscripts takes a signed value' over a 3-node ADMG (all single atoms, a graph-dependent "
@@ -77,6 +78,7 @@ def run(tier: str) -> int:
                       "with shared noise on all 8 base assignments and checks acyclicity / ancestrality / membership on the "
                       "returned graph; non-trivial = distinct (graph, event) on a graph with a bidirected edge",
                       {"design_mc": [mc], **extra4})
+    cov.update(hist)
     cov["states"] += mc["distinct"]
     cov["transitions"] += mc["generated"]
     return out.finish("model_checking", cov, [
